@@ -147,6 +147,8 @@ def shrink(stream, hbin, case, pred, workdir, budget=120):
         reduced = False
         for i in range(0, len(cur), chunk):
             cand = cur[:i] + cur[i + chunk:]
+            if cur and cur[0].startswith("chan ") and not (cand and cand[0].startswith("chan ")):
+                continue      # a simulator case without its channel line is a different (meaningless) case
             runs += 1
             if cand and pred(cand):
                 cur = cand
